@@ -154,9 +154,28 @@ def matrix(sids):
         print("DONE", file=log, flush=True)
 
 
+def table():
+    """Markdown table of the seeded changes and what the registered quick checks said (for DESIGN.md)."""
+    rows = []
+    for sid in sorted(os.listdir(os.path.join(VERIF, "seeded"))):
+        meta = json.load(open(os.path.join(VERIF, "seeded", sid, "meta.json")))
+        prop = meta["property"]
+        r = (meta.get("checks_run") or {}).get(prop) or {}
+        first = " ".join(r.get("first") or [])
+        m = re.search(r"^\s*(\S+) subject=", (r.get("first") or ["", ""])[-1] if r.get("first") else "")
+        inv = m.group(1) if m else ("panic" if "panicked" in first else ("race" if "race" in first.lower() else ("deadlock" if "deadlock" in first.lower() else "")))
+        verdict = {0: "**missed**", 1: "detected" + (" (%s)" % inv if inv else ""), 2: "inconclusive"}.get(r.get("exit"), "not run")
+        summ = re.sub(r"\s+", " ", meta.get("summary") or "")[:150]
+        rows.append("| %s | %s | %s |" % (sid, summ.replace("|", "/"), verdict))
+    print("| id | change | quick check of its property |\n|---|---|---|")
+    print("\n".join(rows))
+
+
 if __name__ == "__main__":
     if sys.argv[1] == "confirm":
         sys.exit(0 if confirm(sys.argv[2], sys.argv[3], sys.argv[4]) else 1)
+    elif sys.argv[1] == "table":
+        table()
     elif sys.argv[1] == "matrix":
         matrix(sys.argv[2:] or sorted(os.listdir(os.path.join(VERIF, "seeded"))))
     elif sys.argv[1] == "run":
